@@ -258,6 +258,7 @@ Definition price_scope : list handler :=
   filter (fun h => mem (h_module h) price_modules && negb (mem (h_name h) (map fst price_unverified))) handlers.
 Definition price_fail_closed (h : handler) : bool := price_all_checked h && no_unchecked_price (h_items h).
 Definition c14_price_check : bool := forallb price_fail_closed price_scope.
+Definition price_scope_names : list string := map h_name price_scope.
 Definition c14_price_unverified_really_unchecked : bool :=
   forallb (fun n => match find_handler n with Some h => negb (price_all_checked h) | None => false end)
           (map fst price_unverified).
